@@ -27,6 +27,22 @@ fn main() {
     let tier = args.get(1).map(|s| s.as_str()).unwrap_or("quick");
     let tier = std::env::var("VERIF_TIER").unwrap_or_else(|_| tier.to_string());
     std::env::set_var("VERIF_TIER_ARG", &tier);
+    // safety net: a panic raised inside the crate under test that no engine caught is still a
+    // verdict about the subject, not a crash of the machinery
+    let cmd_owned = cmd.to_string();
+    let r = mc::catch_subject_panic(|| dispatch(&cmd_owned, &args));
+    if let Err((loc, msg)) = r {
+        let _ = std::fs::create_dir_all(format!("{}/replays", mc::out_dir()));
+        let path = format!("{}/replays/{}-panic.json", mc::out_dir(), cmd_owned);
+        let _ = std::fs::write(&path, serde_json::to_string_pretty(&serde_json::json!({"property": cmd_owned, "clause": "the implementation never panics", "key": format!("panic:{loc}"), "detail": msg, "replay": {"engine": "any"}})).unwrap());
+        println!("VIOLATION property={} replay={}", cmd_owned, path);
+        println!("  clause: the implementation never panics\n  key: panic:{loc}\n  detail: {msg}");
+        std::process::exit(1);
+    }
+}
+
+fn dispatch(cmd: &str, args: &[String]) {
+    let args: Vec<String> = args.to_vec();
     match cmd {
         "smoke" => smoke::run(),
         "C05" => codec::run_c05(),
